@@ -76,11 +76,16 @@ def build(it):
         return R.RectanglePixelRegion(c, r[0], r[1], angle=ang, meta=meta)
     if cls == 'polygon':
         return R.PolygonPixelRegion(PixCoord(np.array(x), np.array(y)), meta=meta)
+    if cls == 'regpoly4':
+        return R.RegularPolygonPixelRegion(c, 4, r[0], meta=meta)
     raise ValueError(cls)
 
 
 KIND = {'PointPixelRegion': 'point', 'CirclePixelRegion': 'circle', 'EllipsePixelRegion': 'ellipse', 'CircleAnnulusPixelRegion': 'cannulus',
         'EllipseAnnulusPixelRegion': 'eannulus', 'RectanglePixelRegion': 'rectangle', 'PolygonPixelRegion': 'polygon'}
+
+
+SUPPORTED = set(KIND.values()) | {'regpoly4'}
 
 
 def project(reg):
@@ -155,10 +160,11 @@ def replay(ctx, st, idx, sc, light=False):
     lst = Regions(regs)
     want_rows = [dict(r) for r in st['table']]
     want_back = [dict(b) for b in st['back']]
-    comps = {it.get('comp', -1) for it in items if it['cls'] in KIND.values()}
+    comps = {it.get('comp', -1) for it in items if it['cls'] in SUPPORTED}
     compsig = 'none' if comps <= {-1} else ('all' if -1 not in comps else 'partial')
-    mixed = len({len(it['x']) for it in items if it['cls'] == 'polygon'}) > 1 or \
-        (any(it['cls'] == 'polygon' for it in items) and any(it['cls'] in KIND.values() and it['cls'] != 'polygon' for it in items))
+    POLY = ('polygon', 'regpoly4')
+    mixed = len({(4 if it['cls'] == 'regpoly4' else len(it['x'])) for it in items if it['cls'] in POLY}) > 1 or \
+        (any(it['cls'] in POLY for it in items) and any(it['cls'] in SUPPORTED and it['cls'] not in POLY for it in items))
     try:
         with warnings.catch_warnings(record=True) as wlist:
             warnings.simplefilter('always')
@@ -166,7 +172,7 @@ def replay(ctx, st, idx, sc, light=False):
     except Exception as ex:  # noqa
         ctx.violation(f'C12|serialize|raises|{type(ex).__name__}|components-{compsig}', f'serialize(format="fits") raised {ex!r} for [{sig_items(items)}]', case)
         return True
-    nskip = sum(1 for it in items if it['cls'] not in KIND.values())
+    nskip = sum(1 for it in items if it['cls'] not in SUPPORTED)
     if nskip and len([w for w in wlist if 'skipping' in str(w.message)]) < nskip:
         ctx.violation('C12|skip|no-warning', f'{nskip} unsupported item(s) but no skip warning', case)
     try:
@@ -328,19 +334,22 @@ def trace_validation(ctx, sc):
     for k in range(n):
         items = []
         for _ in range(rnd.randint(1, 8)):
-            cls = rnd.choice(['point', 'circle', 'ellipse', 'cannulus', 'eannulus', 'rectangle', 'polygon', 'polygon', 'line', 'sky'])
+            cls = rnd.choice(['point', 'circle', 'ellipse', 'cannulus', 'eannulus', 'rectangle', 'polygon', 'polygon', 'regpoly4', 'line', 'sky'])
             if cls in ('line', 'sky'):
                 items.append({'cls': cls})
                 continue
             g = lambda lo, hi: 4 * rnd.randint(lo, hi) + rnd.choice([0, 0, 1, 2])  # noqa
             nv = rnd.randint(3, 6) if cls == 'polygon' else 1
-            sizes = {'point': 0, 'circle': 1, 'ellipse': 2, 'cannulus': 2, 'eannulus': 4, 'rectangle': 2, 'polygon': 0}[cls]
+            sizes = {'point': 0, 'circle': 1, 'ellipse': 2, 'cannulus': 2, 'eannulus': 4, 'rectangle': 2, 'polygon': 0, 'regpoly4': 1}[cls]
             r = sorted(2 * g(1, 20) for _ in range(sizes))
             if cls == 'eannulus':
                 r = [r[0], r[2], r[1], r[3]] if r[0] < r[2] and r[1] < r[3] else [8, 24, 4, 16]
             if cls == 'cannulus' and r[0] == r[1]:
                 r[1] += 4
             xs, ys = [g(-50, 50) for _ in range(nv)], [g(-50, 50) for _ in range(nv)]
+            if cls == 'regpoly4':        # r < 0.22 * centre, so that centre + r*cos(90 deg) etc. round to exactly the centre
+                xs, ys = [g(60, 80)], [g(60, 80)]
+                r = [2 * g(1, 5)]
             if cls == 'polygon' and rnd.random() < 0.4:      # axis-aligned edges: consecutive vertices share a coordinate
                 for j in range(1, nv):
                     if j % 2:
@@ -360,7 +369,7 @@ def trace_validation(ctx, sc):
                 rows = table_rows(tbl)
                 back = [project(r) for r in Regions.parse(tbl, format='fits')]
         except Exception as ex:  # noqa
-            comps = {it.get('comp', -1) for it in items if it['cls'] in KIND.values()}
+            comps = {it.get('comp', -1) for it in items if it['cls'] in SUPPORTED}
             compsig = 'none' if comps <= {-1} else ('all' if -1 not in comps else 'partial')
             ctx.violation(f'C12|trace|raises|{type(ex).__name__}|components-{compsig}', f'serialise/parse raised {ex!r}', {'items': items})
             continue
